@@ -608,32 +608,41 @@ def parsePrec (ints : List (Option Int)) (f : Fl) (ps : PS) (r : Bytes) : Fl × 
       ({ f with prec := if isnum then num else 0, precPresent := true }, ps, false, 1 + ka + k)
   | _ => (f, ps, false, 0)
 
+/-- The verb rune (UTF-8 decoded above 0x7F), or the end of the format. -/
+def parseVerb (f : Fl) (ps : PS) (badW badP : Bool) (consumed : Nat) (r5 : Bytes) : Dir :=
+  match r5 with
+  | [] => { n := consumed, f := f, badWidth := badW, badPrec := badP, verb := none, argNum := ps.argNum, good := ps.good, reordered := ps.reordered }
+  | c :: _ =>
+    let vs := if c.toNat < 0x80 then (c.toNat, 1) else decodeRune r5
+    { n := consumed + vs.2, f := f, badWidth := badW, badPrec := badP, verb := some vs.1, argNum := ps.argNum, good := ps.good, reordered := ps.reordered }
+
+/-- After the precision: a last chance for an argument index, then the verb. -/
+def parseAfterPrec (ints : List (Option Int)) (f : Fl) (ps : PS) (badW badP : Bool) (consumed : Nat) (r4 : Bytes) : Dir :=
+  let a := if !ps.afterIndex then argNumber ps r4 ints.length else (ps, 0)
+  parseVerb f a.1 badW badP (consumed + a.2) (r4.drop a.2)
+
+def parseAfterWidth (ints : List (Option Int)) (f : Fl) (ps : PS) (badW : Bool) (consumed : Nat) (r3 : Bytes) : Dir :=
+  let p := parsePrec ints f ps r3
+  parseAfterPrec ints p.1 p.2.1 badW p.2.2.1 (consumed + p.2.2.2) (r3.drop p.2.2.2)
+
+/-- The general path: `[n]`, width, precision, `[n]`, verb. -/
+def parseSlow (ints : List (Option Int)) (f : Fl) (nf argNum : Nat) (r1 : Bytes) : Dir :=
+  let a := argNumber { argNum := argNum, reordered := false, good := true, afterIndex := false } r1 ints.length
+  let w := parseWidth ints f a.1 (r1.drop a.2)
+  parseAfterWidth ints w.1 w.2.1 w.2.2.1 (nf + a.2 + w.2.2.2) ((r1.drop a.2).drop w.2.2.2)
+
+/-- The fast path of the flag loop: a lower-case ASCII verb right after the flags and an argument left. -/
+def fastVerb (nargs argNum : Nat) : Bytes → Option Nat
+  | c :: _ => if 97 ≤ c.toNat ∧ c.toNat ≤ 122 ∧ argNum < nargs then some c.toNat else none
+  | [] => none
+
 /-- One directive: the bytes `r` after a `%`. `ints` = `ToInt64` of the arguments. -/
 def parseDirective (ints : List (Option Int)) (argNum : Nat) (r : Bytes) : Dir :=
-  let (f, nf) := parseFlags r {} 0
-  let r1 := r.drop nf
-  -- fast path: a lower-case ASCII verb right after the flags and an argument left
-  let fast : Option Nat :=
-    match r1 with
-    | c :: _ => if 97 ≤ c.toNat ∧ c.toNat ≤ 122 ∧ argNum < ints.length then some c.toNat else none
-    | [] => none
-  match fast with
-  | some c => { n := nf + 1, f := f, verb := some c, argNum := argNum }
-  | none =>
-    let (ps, k1) := argNumber { argNum := argNum, reordered := false, good := true, afterIndex := false } r1 ints.length
-    let r2 := r1.drop k1
-    let (f, ps, badW, k2) := parseWidth ints f ps r2
-    let r3 := r2.drop k2
-    let (f, ps, badP, k3) := parsePrec ints f ps r3
-    let r4 := r3.drop k3
-    let (ps, k4) := if !ps.afterIndex then argNumber ps r4 ints.length else (ps, 0)
-    let r5 := r4.drop k4
-    let consumed := nf + k1 + k2 + k3 + k4
-    match r5 with
-    | [] => { n := consumed, f := f, badWidth := badW, badPrec := badP, verb := none, argNum := ps.argNum, good := ps.good, reordered := ps.reordered }
-    | c :: _ =>
-      let (verb, size) := if c.toNat < 0x80 then (c.toNat, 1) else decodeRune r5
-      { n := consumed + size, f := f, badWidth := badW, badPrec := badP, verb := some verb, argNum := ps.argNum, good := ps.good, reordered := ps.reordered }
+  let fl := parseFlags r {} 0
+  let r1 := r.drop fl.2
+  match fastVerb ints.length argNum r1 with
+  | some c => { n := fl.2 + 1, f := fl.1, verb := some c, argNum := argNum }
+  | none => parseSlow ints fl.1 fl.2 argNum r1
 
 /-- `%!verb(BADINDEX)` / `%!verb(MISSING)`. -/
 def verbError (L : Nat) (buf : Bytes) (verb : Nat) (what : Bytes) : R := do
